@@ -632,8 +632,13 @@
 		global.get $__heap_top
 		i32.ge_s
 		if
-			;; $pages = ($block_size+WASM_PAGE_SIZE-1) / WASM_PAGE_SIZE)
+			;; only what is missing below $__heap_top has to be added:
+			;; $pages = ($__heap_ptr+$block_size-$__heap_top + WASM_PAGE_SIZE-1) / WASM_PAGE_SIZE
+			global.get $__heap_ptr
 			local.get $block_size
+			i32.add
+			global.get $__heap_top
+			i32.sub
 			i32.const 65535 ;; WASM_PAGE_SIZE-1
 			i32.add
 			i32.const 65536 ;; WASM_PAGE_SIZE
